@@ -915,6 +915,43 @@ def propagate_named_conditions(tree: ast.AST) -> int:
     return count
 
 
+def positional_calls(trees: Dict[str, ast.Module]) -> int:
+    """Calls of module-level functions of the package (uniquely named) get their leading keyword arguments turned into positional ones, in
+    the callee's parameter order: `as_freq(x, freq="D")` reads `as_freq(x, "D")`.  Passing an argument by name or by position is the same
+    call; rules that describe a call then see one spelling."""
+    sigs: Dict[str, Optional[List[str]]] = {}
+    for mod, tree in trees.items():
+        for st in tree.body:
+            if isinstance(st, FuncNode):
+                a = st.args
+                if a.vararg or a.posonlyargs:
+                    params = None
+                else:
+                    params = [x.arg for x in a.args]
+                # two functions of one name are fine when their parameter lists agree (a legacy copy); otherwise the name is left alone
+                sigs[st.name] = params if (st.name not in sigs or sigs[st.name] == params) else None
+    n = 0
+    for mod, tree in trees.items():
+        for c in ast.walk(tree):
+            if not isinstance(c, ast.Call) or not c.keywords or any(isinstance(x, ast.Starred) for x in c.args) or any(k.arg is None for k in c.keywords):
+                continue
+            name = c.func.id if isinstance(c.func, ast.Name) else None
+            params = sigs.get(name) if name else None
+            if not params:
+                continue
+            kw = {k.arg: k for k in c.keywords}
+            i = len(c.args)
+            moved = False
+            while i < len(params) and params[i] in kw:
+                c.args.append(kw.pop(params[i]).value)
+                i += 1
+                moved = True
+            if moved:
+                c.keywords = [k for k in c.keywords if k.arg in kw]
+                n += 1
+    return n
+
+
 def inline_unknown_helpers(tree: ast.Module, modname: str, known: Set[str]) -> Tuple[ast.Module, List[str]]:
     mi = ModuleInliner(tree, modname, known)
     return mi.run(), mi.log
@@ -1179,6 +1216,9 @@ def inline_package(trees: Dict[str, ast.Module], packages: Dict[str, bool], know
         mi = inl[mod]
         trees[mod] = mi.run(discovered=True)
         log.extend(mi.log)
+    n_pos = positional_calls(trees)
+    if n_pos:
+        log.append(f"package: {n_pos} call(s) of package functions normalised to positional arguments")
     # imported names of removed helpers / folded constants: drop them from the import statements
     gone: Dict[str, Set[str]] = {}
     for mod, mi in inl.items():
